@@ -429,10 +429,50 @@ def r5_no_write_back(ck: Check, repo: Repo, clone: Fn, copy_attrs: Fn) -> None:
     # population elements: only .clone()/.fitness/.index reads
     # (methods of the new list itself — the local returned as the new population — are not calls on members)
     newpop = _returned_name(tour.methods["select"], 1)
+    def _member_roots(fn: Fn) -> Set[str]:
+        """names that may denote (a member of) the old population: the parameter, loop / comprehension variables over it, locals bound to population[...]"""
+        roots = {"population"}
+        changed = True
+        while changed:
+            changed = False
+            for x in ast.walk(fn.node):
+                tgt, src = None, None
+                if isinstance(x, ast.For):
+                    tgt, src = x.target, x.iter
+                elif isinstance(x, ast.comprehension):
+                    tgt, src = x.target, x.iter
+                elif isinstance(x, ast.Assign) and len(x.targets) == 1:
+                    tgt, src = x.targets[0], x.value
+                if tgt is None:
+                    continue
+                base = src
+                while isinstance(base, (ast.Subscript, ast.Attribute)):
+                    base = base.value
+                if isinstance(base, ast.Call) and call_name(base) in ("enumerate", "zip", "reversed", "list", "sorted") and base.args:
+                    base = base.args[0]
+                    while isinstance(base, (ast.Subscript, ast.Attribute)):
+                        base = base.value
+                if isinstance(base, ast.Name) and base.id in roots and not isinstance(src, ast.Call):
+                    for t in ast.walk(tgt):
+                        if isinstance(t, ast.Name) and t.id not in roots:
+                            roots.add(t.id)
+                            changed = True
+                elif isinstance(src, ast.Call) and call_name(src) in ("enumerate", "zip", "reversed", "list", "sorted") and isinstance(base, ast.Name) and base.id in roots:
+                    for t in ast.walk(tgt):
+                        if isinstance(t, ast.Name) and t.id not in roots:
+                            roots.add(t.id)
+                            changed = True
+        return roots
+
     for fn in (tour.methods["_elitism"], tour.methods["select"]):
         own_list = (newpop + ".",) if (newpop is not None and fn.name == "select") else ()
+        members = _member_roots(fn)
         for c in calls_in(fn.node):
-            if isinstance(c.func, ast.Attribute) and not call_name(c).startswith(("np.", "self.") + own_list):
+            recv = c.func.value if isinstance(c.func, ast.Attribute) else None
+            while isinstance(recv, (ast.Subscript, ast.Attribute)):
+                recv = recv.value
+            on_member = isinstance(recv, ast.Name) and recv.id in members
+            if isinstance(c.func, ast.Attribute) and on_member and not call_name(c).startswith(("np.", "self.") + own_list):
                 ok = c.func.attr in ("clone", "argsort")
                 ck.ob("C01.5", fn, c, ok,
                       "the only method invoked on members of the old population is clone()",
